@@ -98,6 +98,16 @@ func main() {
 			events := m.Events
 			m.Unlock()
 			res.NEvents = len(events)
+			// crash-point coverage cells (class x position x role) from the crash events
+			for i := range events {
+				if events[i].Kind == mon.KNodeCrash {
+					d := events[i].Str
+					if k := strings.Index(d, " (kept"); k > 0 {
+						d = d[:k] + d[strings.Index(d, " role="):]
+					}
+					res.Cover["crash:"+d]++
+				}
+			}
 			res.MaxRTTUs = c.Net.MaxRTT / 1000
 			res.MaxStallUs = c.StallMaxNs.Load() / 1000
 			switch {
